@@ -154,9 +154,11 @@ def initState : MState := { s := { ctxs := [{ unit := 0, pc := 0 }] } }
 /-- the harness program: top level `f0()`; the top-level context is a child-like stub calling unit 0 -/
 def initFor (m : Machine) : MState := { s := { ctxs := [childCtx m.stub 0 false] } }
 
-def traceVM (p : Prog) (fuel : Nat) : List Tok × Option Status :=
-  let m : Machine := ⟨compileCtl p⟩
+def traceCode (code : List Code) (fuel : Nat) : List Tok × Option Status :=
+  let m : Machine := ⟨code⟩
   let r := runN m fuel (initFor m)
   (r.s.trace.reverse, r.s.halted)
+
+def traceVM (p : Prog) (fuel : Nat) : List Tok × Option Status := traceCode (compileCtl p) fuel
 
 end EgoVerif.C10
